@@ -264,10 +264,27 @@ func checkTokenValidation(c *report.Ctx) {
 			continue
 		}
 		g := an.GlobalOf(e.Vals[1])
-		rendered := false
+		// (the one-line render helpers are looked through, internal/load/norm.go: the rule reads the header and
+		// status writes themselves, whatever helper - if any - wraps them)
+		rendered, status400 := false, false
 		for _, in := range e.Ret.Block().Instrs {
-			if call, ok := in.(ssa.CallInstruction); ok && an.Callee(call) == diP+".renderBadRequest" {
+			call, ok := in.(ssa.CallInstruction)
+			if !ok {
+				continue
+			}
+			switch an.Callee(call) {
+			case "net/http.ResponseWriter.WriteHeader":
+				if n, k := an.ConstInt(call.Common().Args[0]); k && n == 400 {
+					status400 = true
+				}
+			case "net/http.Header.Set":
 				a := call.Common().Args
+				if len(a) != 3 {
+					continue
+				}
+				if k, isC := an.ConstString(a[1]); !isC || k != errTypeHeaderName(c) {
+					continue
+				}
 				if ec, _ := an.CallOf(a[2]); ec != nil && strings.HasSuffix(an.Callee(ec), ".Error") {
 					if g == "" || an.GlobalOf(receiverOf(ec)) == g {
 						rendered = true
@@ -279,6 +296,7 @@ func checkTokenValidation(c *report.Ctx) {
 				}
 			}
 		}
+		rendered = rendered && status400
 		if g != "" {
 			got[g] = true
 		}
@@ -294,14 +312,6 @@ func checkTokenValidation(c *report.Ctx) {
 	}
 	sort.Strings(missing)
 	c.Check("R-CONST", name+"/refusals", "every refusal renders 400 with the error it returns, and returns no invoke; all documented refusal causes are present", okAll && len(missing) == 0, fpos(f), len(got), "refusal errors: %v; missing: %v; each rendered+returned: %v", keysOf(got), missing, okAll)
-	if r := fn(c, diP, "renderBadRequest"); r != nil {
-		ok := false
-		for _, call := range an.CallsTo(r, "net/http.ResponseWriter.WriteHeader") {
-			n, k := an.ConstInt(call.Common().Args[0])
-			ok = k && n == 400
-		}
-		c.Check("R-CONST", an.FuncName(r)+"/status-400", "refusals are client errors (400)", ok, fpos(r), 1, "%v", ok)
-	}
 	// range checks
 	for _, rc := range []struct{ glob, min, max string }{
 		{diP + ".ResponseBandwidthRate", "MinResponseBandwidthRate", "MaxResponseBandwidthRate"},
@@ -745,4 +755,13 @@ func checkTrailerDeclarations(c *report.Ctx) {
 		}
 	}
 	c.Check("R-WHO", diP+"/trailer-declarations", "the Trailer header is initialised once (End-Of-Response, on receiving the direct invoke) and only added to afterwards", len(bad) == 0 && nSet == 1 && nAdd >= 2, pos, nSet+nAdd, "Set/Del: %d, Add: %d; not allowed: %v", nSet, nAdd, bad)
+}
+
+// errTypeHeaderName: the header that carries the error type of a direct-invoke refusal.
+func errTypeHeaderName(c *report.Ctx) string {
+	if k := c.P.Const(diP, "ErrorTypeHeader"); k != nil {
+		s, _ := an.ConstString(k.Value)
+		return s
+	}
+	return "Error-Type"
 }
